@@ -3,7 +3,7 @@
    products are assembled from.  Part 2 (distributed, composed with the halo exchange of C03) is in
    Dist/ParSpmvProofs.v and stated below once available.
    dot_row dn x n = sum_{c<n} dn c * x_c. *)
-From Raptor Require Import Base.Sums Sparse.Defs Sparse.ConvertProofs Sparse.SpmvProofs Dist.Comm Dist.CommProofs Dist.ParMat Dist.ParSpmvProofs.
+From Raptor Require Import Base.Sums Sparse.Defs Sparse.ConvertProofs Sparse.SpmvProofs Dist.Comm Dist.CommProofs Dist.ParMat Dist.ParSpmvProofs Dist.ParSpmvTProofs.
 
 Section C02.
 Variable F : Type.
@@ -91,9 +91,46 @@ Theorem C02_distributed_mult_is_global_product :
   = dot (gden_row F zero add (nth p st (mkRS 0 0 0 0 (mkCsr 0 0 []) (mkCsr 0 0 []) [])) li) X N.
 Proof. intros. apply (par_mult_global F zero one add mul sub opp Fth w st X big N); assumption. Qed.
 
+(* b + A x and b - A x on one rank, given a halo buffer holding the owners' values (C03) *)
+Theorem C02_distributed_mult_append_and_residual :
+  forall (rs : rank_state F) (X b0 : list F) N li,
+  rs_wf F N rs -> li < rs_nr rs -> rs_nr rs <= length b0 ->
+  xat (par_mult_append_local F zero add mul rs (map (fun c => nth c X zero) (seq (rs_fc rs) (rs_nc rs)))
+                      (map (fun c => nth c X zero) (rs_colmap rs)) b0) li
+    = add (xat b0 li) (dot (gden_row F zero add rs li) X N) /\
+  xat (par_residual_local F zero mul sub rs (map (fun c => nth c X zero) (seq (rs_fc rs) (rs_nc rs)))
+                      (map (fun c => nth c X zero) (rs_colmap rs)) b0) li
+    = sub (xat b0 li) (dot (gden_row F zero add rs li) X N).
+Proof.
+  intros. split.
+  - apply (par_mult_append_row F zero one add mul sub opp Fth); assumption.
+  - apply (par_residual_row F zero one add mul sub opp Fth); assumption.
+Qed.
+
+(* A^T x: entry lc of rank q's result is the column fc_q + lc of the global operator applied to the
+   distributed x (sum over ALL ranks' rows), for every package accepted by the reverse check of C03,
+   whatever b.local held before (ranks without rows overwrite it with zeros). *)
+Theorem C02_distributed_mult_T_is_global_transpose_product :
+  forall (w : world) (st : list (rank_state F)) (xs bprev : list (list F)) (N q lc : nat),
+  let dflt := mkRS 0 0 0 0 (mkCsr 0 0 []) (mkCsr 0 0 []) [] in
+  rev_ok w (map (fun rs => seq (rs_fc rs) (rs_nc rs)) st) (map (fun rs => rs_colmap rs) st) = true ->
+  length w = length st -> q < length st ->
+  (forall p, p < length st -> rs_wf F N (nth p st dflt)) ->
+  (forall p, p < length st -> length (nth p xs []) = rs_nr (nth p st dflt)) ->
+  length (nth q bprev []) = rs_nc (nth q st dflt) ->
+  lc < rs_nc (nth q st dflt) ->
+  (forall p, p < length st -> p <> q ->
+     ~ (rs_fc (nth p st dflt) <= rs_fc (nth q st dflt) + lc < rs_fc (nth p st dflt) + rs_nc (nth p st dflt))) ->
+  xat (nth q (par_mult_T F zero add mul w st xs bprev) []) lc
+  = sumf F zero add (map (fun p => colT F zero add mul (nth p st dflt) (nth p xs []) (rs_fc (nth q st dflt) + lc))
+                         (seq 0 (length st))).
+Proof. intros. apply (par_mult_T_global F zero one add mul sub opp Fth w st xs bprev N q lc); assumption. Qed.
+
 End C02.
 
 Print Assumptions C02_coo_kernels.
 Print Assumptions C02_csr_kernels.
 Print Assumptions C02_csc_kernels.
 Print Assumptions C02_distributed_mult_is_global_product.
+Print Assumptions C02_distributed_mult_append_and_residual.
+Print Assumptions C02_distributed_mult_T_is_global_transpose_product.
